@@ -277,6 +277,9 @@ pub fn write_generic_diff_header_header_line(
     if config.file_style.is_omitted && !config.color_only {
         return Ok(());
     }
+    // The header is written to the output stream directly: anything still waiting in the
+    // painter's output buffer (the last lines of the previous file) must go out first.
+    painter.emit()?;
     let (mut draw_fn, pad, decoration_ansi_term_style) =
         draw::get_draw_function(config.file_style.decoration_style);
     if !config.color_only {
